@@ -204,7 +204,7 @@ static void op_destroy(int slot, const char *when)
     check_registry(when);
     use_dead(d, when);
 }
-#define NKIND 14
+#define NKIND 15
 static void op_error_exit(int slot, int kind, const char *when)
 {
     int desc = M.desc[slot]; const struct cfg *g = &CFG[M.cfg[slot]]; int k = g->k, n = g->k + g->m;
@@ -253,6 +253,9 @@ static void op_error_exit(int slot, int kind, const char *when)
         else rc = liberasurecode_reconstruct_fragment(desc, list, nf, fl, 0, ob);
         if (g->be == EC_BACKEND_NULL && rc >= 0) rc = -1;
         break; }
+    /* 14: the caller damages the magic of a fragment encode returned (its buffers are the caller's to write), decode refuses the stripe,
+     * and encode_cleanup must still release every buffer encode allocated (checked by the teardown that follows every transition) */
+    case 14: F[0][59] ^= 0x5a; rc = liberasurecode_decode(desc, F, n, fl, 0, &out, &ol); break;
     /* 11: the first result is still in use when the rejected call is made with the same variables; it is released afterwards */
     case 11: {
         char **ed2 = NULL, **ep2 = NULL; uint64_t fl2 = 0;
@@ -429,7 +432,7 @@ static int seq_step(char L, int pos)
     case 'u': if (!M.n) return 0; use_and_compare(0, when); return 1;
     case 'v': if (M.n < 2) return 0; use_and_compare(M.n - 1, when); return 1;
     case 'x': if (!M.n) return 0; op_error_exit(0, pos % 7, when); return 1;
-    case 'y': if (!M.n) return 0; op_error_exit(M.n - 1, 7 + pos % 7, when); return 1;
+    case 'y': if (!M.n) return 0; op_error_exit(M.n - 1, 7 + pos % 8, when); return 1;
     case 'f': op_create(NGOOD + pos % (NCFG - NGOOD), when); if (M.ndead) use_dead(M.dead[M.ndead - 1], when); return 1;
     }
     return 0;
